@@ -457,4 +457,413 @@ adapter's own process group or a dropped session. -/
 theorem C08_dap_args_total : C08_dap_args_total_full repaired :=
   fun s seq c a => (R.safeOut_run _).mp (decode_safe repaired repaired_allRepaired s seq c a)
 
+example : (decode repaired {} 1 .completions (.obj [(k!"text", .str ['d', 'í']), (k!"column", .num 3)])).run = .ok := by decide
+
+/-! ## as found: where the full statement fails, and the requests for which it holds -/
+
+def witnessDisassemble : J :=
+  .obj [(k!"memoryReference", .str k!"0x10"), (k!"instructionCount", .num (2 ^ 63 - 1)), (k!"instructionOffset", .num (-(2 ^ 63)))]
+
+/-- **C08_dap_args_total_counterexample.** As found the full statement is false: `disassemble` with
+`instructionCount = i64::MAX` and `instructionOffset = i64::MIN` overflows `instruction_count as usize +
+back_instructions + 16` (source.rs:70) — in any session state, before the debugger is even looked at. -/
+theorem C08_dap_args_total_counterexample : ¬ C08_dap_args_total_full asFound := by
+  intro h
+  have := h {} 1 .disassemble witnessDisassemble
+  revert this
+  decide
+
+/-- the witnesses of the other fault classes (each replayed on the real code by the harness, corpus/C08) -/
+theorem C08_dap_args_witnesses :
+    (decode asFound {} 1 .disassemble witnessDisassemble).run = .panic .addOverflow ∧
+    (decode asFound { dbg := .live } 1 .disassemble
+      (.obj [(k!"memoryReference", .str k!"0x10"), (k!"instructionCount", .num (2 ^ 62))])).run = .panic .capacity ∧
+    (decode asFound { dbg := .live } 1 .disassemble
+      (.obj [(k!"memoryReference", .str k!"0x10"), (k!"instructionCount", .num (2 ^ 43))])).run = .abort ∧
+    (decode asFound { dbg := .live } 1 .readMemory
+      (.obj [(k!"memoryReference", .str k!"0x10"), (k!"count", .num (2 ^ 47))])).run = .abort ∧
+    (decode asFound {} 1 .terminateThreads (.obj [(k!"threadIds", .arr [.num 0])])).run = .killed := by decide
+
+/-- the parser behind `dataBreakpointInfo` / `evaluate` / `setExpression` / `setDataBreakpoints`: a numeric token out of
+range panics (`unwrapped()`), with or without a debuggee -/
+theorem C08_dap_args_witness_expr :
+    (decode asFound {} 1 .dataBreakpointInfo (.obj [(k!"name", .str k!"a[18446744073709551616]")])).run = .panic (.expr .litInt) ∧
+    (decode asFound { dbg := .loaded } 1 .evaluate (.obj [(k!"expression", .str k!"a[1..99999999999999999999]")])).run
+      = .panic (.expr .sliceBound) := by decide +kernel
+
+/-- with the repairs the same requests are answered -/
+theorem C08_dap_args_witnesses_repaired :
+    (decode repaired {} 1 .disassemble witnessDisassemble).run = .err "disassemble: instruction count overflow" ∧
+    (decode repaired { dbg := .live } 1 .readMemory
+      (.obj [(k!"memoryReference", .str k!"0x10"), (k!"count", .num (2 ^ 47))])).run = .err "requested size exceeds the address space" ∧
+    (decode repaired {} 1 .terminateThreads (.obj [(k!"threadIds", .arr [.num 0])])).run = .err "terminateThreads: threadIds must be positive" := by
+  decide
+
+theorem R.val_bind {α β} (a : α) (f : α → R β) : (R.val a >>= f) = f a := rfl
+theorem R.stop_bind {α β} (o : Out) (f : α → R β) : ((R.stop o : R α) >>= f) = R.stop o := rfl
+
+/-- the string `parse_data_breakpoint_id` hands to the parsers -/
+def dataIdExpr (d : List Char) : List Char :=
+  let t := trim d
+  match stripPrefix? k!"expr:" t with
+  | some e => trim e
+  | none =>
+    match stripPrefix? k!"addr:" t with
+    | some e => trim e
+    | none => trim t
+
+/-- no numeric token of the string is out of range for the numeric leaves of the expression grammar (`tokensInRange`
+of the console-parser model, decidable on the raw characters) -/
+def exprOk (e : List Char) : Bool := tokensInRange asFound.parser e
+
+def dataIdsOk (bps : List J) : Bool :=
+  bps.all fun bp => match getStr bp k!"dataId" with
+    | some d => exprOk (dataIdExpr d)
+    | none => true
+
+/-- **the decidable hypothesis of the partial theorem**: the request carries no expression with an out-of-range
+numeric token, no `disassemble` / `readMemory` size that overflows `usize` or (on a stopped debuggee) exceeds the
+address space, and `terminateThreads` does not start with thread id 0. -/
+def benign (s : Sess) (c : Cmd) (a : J) : Bool :=
+  match c with
+  | .dataBreakpointInfo => match getStr a k!"name" with
+    | some n => exprOk (trim n)
+    | none => true
+  | .evaluate => match getStr a k!"expression" with
+    | some e => exprOk e
+    | none => true
+  | .setExpression => match getStr a k!"expression" with
+    | some e => exprOk e
+    | none => true
+  | .setDataBreakpoints => dataIdsOk (((a.get k!"breakpoints").bind J.arr?).getD [])
+  | .disassemble =>
+    let sum := ((getI64 a k!"instructionCount").getD 0).toNat + ((getI64 a k!"instructionOffset").getD 0).natAbs + 16
+    decide (sum < 2 ^ 64) && (s.dbg != .live || decide (max (min (sum % 2 ^ 64 * 16) (2 ^ 64 - 1)) 16 < allocMax))
+  | .readMemory => s.dbg != .live || decide (((getI64 a k!"count").getD 0).toNat < allocMax)
+  | .terminateThreads => match (a.get k!"threadIds").bind J.arr? with
+    | some (t :: _) => t.i64? != some 0
+    | _ => true
+  | _ => true
+
+theorem safeR_parseDataBpExpr_inRange (e : List Char) (h : exprOk (trim e) = true) : (parseDataBpExpr asFound e).SafeR :=
+  safeR_parseDataBpExpr_of asFound e (safeR_parseWpAddr_inRange _ _ h) (safeR_parseExpr_inRange _ _ h)
+
+theorem safeR_parseDataBpId_inRange (d : List Char) (h : exprOk (dataIdExpr d) = true) : (parseDataBpId asFound d).SafeR := by
+  unfold parseDataBpId
+  unfold dataIdExpr at h
+  dsimp only at h ⊢
+  split
+  · next e he => rw [he] at h; exact safeR_parseDataBpExpr_inRange e h
+  · next he =>
+    rw [he] at h
+    dsimp only at h
+    split
+    · next e he2 => rw [he2] at h; exact safeR_parseDataBpExpr_inRange e h
+    · next he2 => rw [he2] at h; exact safeR_parseDataBpExpr_inRange _ h
+
+theorem dataBpLoop_partial : ∀ bps : List J, dataIdsOk bps = true → (dataBpLoop asFound bps).SafeOut := by
+  intro bps
+  induction bps with
+  | nil => intro _; simp [dataBpLoop, R.SafeOut, Out.Safe]
+  | cons bp rest ih =>
+    intro h
+    simp only [dataIdsOk, List.all_cons, Bool.and_eq_true] at h
+    have ih' := ih (by simpa [dataIdsOk] using h.2)
+    unfold dataBpLoop
+    split
+    · exact ih'
+    · next d hd =>
+      have h1 := h.1
+      rw [hd] at h1
+      have key : (match parseDataBpId asFound d with
+          | .stop o => R.stop o
+          | .val _ => dataBpLoop asFound rest).SafeOut := by
+        have := safeR_parseDataBpId_inRange d h1
+        cases hp : parseDataBpId asFound d with
+        | stop o => rw [hp] at this; exact this
+        | val b => exact ih'
+      dsimp only
+      exact safeOut_ite _ _ _ key ih'
+
+macro "dap_safe3" : tactic => `(tactic|
+  repeat' (first
+    | intro _
+    | assumption
+    | apply safeOut_bind
+    | apply safeR_bind
+    | (simp only [safeR_orErr, safeR_rejectIf, safeR_needDbg, safeR_cancelCheck, safeR_memRefR, safeR_pure, safeR_val,
+        safeOut_pure_iff, safeOut_val_iff, safeOut_stop_iff, safeR_stop_iff, Out.Safe]; done)
+    | split
+    | dsimp only
+    | contradiction))
+
+section
+attribute [local irreducible] alloc addGuard parseExpr allocMax
+
+theorem decEvaluate_partial (s : Sess) (seq : Int) (a : J) (h : benign s .evaluate a = true) :
+    (decEvaluate asFound s seq a).SafeOut := by
+  unfold decEvaluate
+  simp only [benign] at h
+  cases he : getStr a k!"expression" with
+  | none => simp only [orErr, R.stop_bind]; dap_safe3
+  | some e =>
+    rw [he] at h
+    have hP : (parseExpr asFound e).SafeR := safeR_parseExpr_inRange _ _ h
+    clear h
+    simp only [orErr, R.val_bind]
+    dap_safe3
+
+theorem decSetExpression_partial (s : Sess) (a : J) (h : benign s .setExpression a = true) :
+    (decSetExpression asFound s a).SafeOut := by
+  unfold decSetExpression
+  simp only [benign] at h
+  cases he : getStr a k!"expression" with
+  | none => simp only [orErr, R.stop_bind]; dap_safe3
+  | some e =>
+    rw [he] at h
+    have hP : (parseExpr asFound e).SafeR := safeR_parseExpr_inRange _ _ h
+    clear h
+    simp only [orErr, R.val_bind]
+    dap_safe3
+
+theorem decReadMemory_partial (s : Sess) (seq : Int) (a : J) (h : benign s .readMemory a = true) :
+    (decReadMemory asFound s seq a).SafeOut := by
+  unfold decReadMemory
+  simp only [benign, Bool.or_eq_true, bne_iff_ne, ne_eq, decide_eq_true_eq] at h
+  cases hc : getI64 a k!"count" with
+  | none => simp only [orErr, R.stop_bind]; dap_safe3
+  | some c =>
+    rw [hc] at h
+    simp only [Option.getD_some] at h
+    simp only [orErr, R.val_bind]
+    by_cases hl : s.dbg = .live
+    · have hA : (alloc asFound c.toNat).SafeR := by
+        rcases h with h | h
+        · exact absurd hl h
+        · exact safeR_alloc_small _ _ h
+      clear h
+      dap_safe3
+    · clear h
+      dap_safe3
+
+theorem decDisassemble_partial (s : Sess) (seq : Int) (a : J) (h : benign s .disassemble a = true) :
+    (decDisassemble asFound s seq a).SafeOut := by
+  unfold decDisassemble
+  simp only [benign, Bool.and_eq_true, Bool.or_eq_true, bne_iff_ne, ne_eq, decide_eq_true_eq] at h
+  cases hc : getI64 a k!"instructionCount" with
+  | none => simp only [orErr, R.stop_bind]; dap_safe3
+  | some c =>
+    rw [hc] at h
+    simp only [Option.getD_some] at h
+    obtain ⟨h1, h2⟩ := h
+    have hG := safeR_addGuard_small asFound _ h1
+    clear h1
+    simp only [orErr, R.val_bind]
+    by_cases hl : s.dbg = .live
+    · have hA : (alloc asFound (max (min ((c.toNat + ((getI64 a k!"instructionOffset").getD 0).natAbs + 16) % 2 ^ 64 * 16) (2 ^ 64 - 1)) 16)).SafeR := by
+        rcases h2 with h2 | h2
+        · exact absurd hl h2
+        · exact safeR_alloc_small _ _ h2
+      clear h2
+      dap_safe3
+    · clear h2
+      dap_safe3
+
+theorem decTerminateThreads_partial (s : Sess) (a : J) (h : benign s .terminateThreads a = true) :
+    (decTerminateThreads asFound a).SafeOut := by
+  unfold decTerminateThreads
+  simp only [benign] at h
+  apply safeOut_bind _ _ (safeR_rejectIf _ _); intro _
+  cases hg : a.get k!"threadIds" with
+  | none => simp [pure, R.val_bind, R.SafeOut, Out.Safe]
+  | some v =>
+    rw [hg] at h
+    simp only [Option.bind_some] at h
+    cases hv : v.arr? with
+    | none => simp [hv, orErr, R.stop_bind, R.SafeOut, Out.Safe]
+    | some ids =>
+      rw [hv] at h
+      simp only [hv, orErr, R.val_bind]
+      cases ids with
+      | nil => simp [pure, R.SafeOut, Out.Safe]
+      | cons t rest =>
+        simp only [bne_iff_ne, ne_eq] at h
+        show (killFirst asFound t).SafeOut
+        unfold killFirst
+        split
+        · simp [R.SafeOut, Out.Safe]
+        · next tid ht =>
+          have : tid ≠ 0 := by intro h0; subst h0; exact h ht
+          split
+          · simp [R.SafeOut, Out.Safe]
+          · split
+            · simp [R.SafeOut, Out.Safe]
+            · simp [this, R.SafeOut, Out.Safe]
+
+end
+
+/-- the commands whose decoding depends on the quirk settings -/
+def quirkCmds : List Cmd :=
+  [.dataBreakpointInfo, .setDataBreakpoints, .evaluate, .setExpression, .readMemory, .disassemble, .terminateThreads]
+
+theorem decode_quirk_irrelevant (q q' : Q) (s : Sess) (seq : Int) (c : Cmd) (a : J) (hc : c ∉ quirkCmds) :
+    decode q s seq c a = decode q' s seq c a := by
+  cases c <;> first | rfl | (exfalso; revert hc; decide)
+
+/-- **C08_dap_args_total_partial** (as found): every `benign` request — any command, any argument value, any session
+state — is decoded without a fault. -/
+theorem C08_dap_args_total_partial (s : Sess) (seq : Int) (c : Cmd) (a : J) (h : benign s c a = true) :
+    (decode asFound s seq c a).run.Safe := by
+  rw [← R.safeOut_run]
+  cases c
+  case evaluate => exact decEvaluate_partial s seq a h
+  case setExpression => exact decSetExpression_partial s a h
+  case readMemory => exact decReadMemory_partial s seq a h
+  case disassemble => exact decDisassemble_partial s seq a h
+  case terminateThreads => exact decTerminateThreads_partial s a h
+  case setDataBreakpoints =>
+    simp only [decode]
+    unfold decSetDataBreakpoints
+    simp only [benign] at h
+    apply safeOut_bind _ _ (safeR_needDbg _ _); intro _
+    exact dataBpLoop_partial _ h
+  case dataBreakpointInfo =>
+    simp only [decode]
+    simp only [benign] at h
+    cases hn : getStr a k!"name" with
+    | none => simp [orErr, R.SafeOut, Out.Safe, bind]
+    | some n =>
+      rw [hn] at h
+      simp only [orErr, R.val_bind]
+      exact safeOut_bind _ _ (safeR_parseDataBpExpr_inRange n h) (fun _ => by simp [pure, R.SafeOut, Out.Safe])
+  all_goals
+    rw [decode_quirk_irrelevant asFound repaired s seq _ a (by decide)]
+    exact decode_safe repaired repaired_allRepaired s seq _ a
+
+/-- non-vacuity: benign requests exist for the commands with a hypothesis, and the witnesses above are not benign -/
+example : benign { dbg := .live } .readMemory (.obj [(k!"memoryReference", .str k!"0x10"), (k!"count", .num 64)]) = true := by decide
+example : benign {} .disassemble witnessDisassemble = false := by decide
+example : benign {} .dataBreakpointInfo (.obj [(k!"name", .str k!"a[18446744073709551616]")]) = false := by decide +kernel
+example : benign {} .dataBreakpointInfo (.obj [(k!"name", .str k!"arr[3]")]) = true := by decide +kernel
+
+/-! ## histories of messages -/
+
+theorem stepMsg_safe (q : Q) (hq : q.AllRepaired) (hg : q.envelopeGuard = true) (s : Sess) (m : J) (h : Hint) :
+    (stepMsg q s m h).2.Safe := by
+  unfold stepMsg
+  split
+  · trivial
+  · split
+    · simp [hg, Out.Safe]
+    · dsimp only
+      split
+      · trivial
+      · exact (R.safeOut_run _).mp (decode_safe q hq _ _ _ _)
+
+/-- the full statement for sessions: whatever messages arrive (well-formed or not) and whatever the debugger answers
+in between (`Hint`), no message is answered with a fault -/
+def C08_dap_session_total_full (q : Q) : Prop :=
+  ∀ (s : Sess) (hist : List (J × Hint)), ∀ o ∈ runAll q s hist, o.Safe
+
+/-- **C08_dap_session_total** (repaired): every history, from every session state. -/
+theorem C08_dap_session_total : C08_dap_session_total_full repaired := by
+  intro s hist
+  induction hist generalizing s with
+  | nil => intro o ho; simp [runAll] at ho
+  | cons mh rest ih =>
+    obtain ⟨m, h⟩ := mh
+    intro o ho
+    simp only [runAll, List.mem_cons] at ho
+    rcases ho with rfl | ho
+    · exact stepMsg_safe repaired repaired_allRepaired rfl s m h
+    · exact ih _ o ho
+
+/-- **C08_dap_envelope_counterexample** (as found): a message whose envelope does not deserialize (`null`, a missing or
+ill-typed `seq` / `type` / `command`) makes `run` return `Err`: the session is dropped, later requests find it closed. -/
+theorem C08_dap_envelope_counterexample :
+    runAll asFound {} [(.null, {}), (.obj [(k!"seq", .num 2), (k!"type", .str k!"request"), (k!"command", .str k!"threads")], {})]
+      = [.dropped, .closed] ∧
+    runAll asFound {} [(.obj [(k!"seq", .str k!"7"), (k!"type", .str k!"request"), (k!"command", .str k!"threads")], {})] = [.dropped] ∧
+    runAll repaired {} [(.null, {})] = [.ignored] := by decide
+
+theorem C08_dap_session_total_counterexample : ¬ C08_dap_session_total_full asFound := by
+  intro h
+  have := h {} [(.null, {})] .dropped (by decide)
+  exact this
+
+/-- once the session has ended nothing is answered any more -/
+theorem C08_dap_closed_after_end (q : Q) (s : Sess) (hist : List (J × Hint)) (h : s.ended = true) :
+    ∀ o ∈ runAll q s hist, o = .closed := by
+  induction hist with
+  | nil => intro o ho; simp [runAll] at ho
+  | cons mh rest ih =>
+    obtain ⟨m, hh⟩ := mh
+    intro o ho
+    simp only [runAll, stepMsg, h, ↓reduceIte, List.mem_cons] at ho
+    rcases ho with rfl | ho
+    · rfl
+    · exact ih o ho
+
+theorem afterHint_dead (s : Sess) (c : Cmd) (o : Out) (h : Hint) (ho : ¬ o.Safe) : (afterHint s c o h).ended = true := by
+  unfold afterHint
+  cases o <;> simp [Out.Safe] at ho <;> simp
+
+/-- a fault is the end of the session: the state after a message that was not answered safely is `ended` -/
+theorem C08_dap_fault_ends_session (q : Q) (s : Sess) (m : J) (h : Hint) (hf : ¬ (stepMsg q s m h).2.Safe) :
+    (stepMsg q s m h).1.ended = true := by
+  unfold stepMsg at hf ⊢
+  by_cases he : s.ended = true
+  · simp [he, Out.Safe] at hf
+  · simp only [if_neg he] at hf ⊢
+    cases hd : decodeEnvelope m with
+    | none =>
+      simp only [hd] at hf ⊢
+      by_cases hg : q.envelopeGuard = true
+      · simp [hg, Out.Safe] at hf
+      · simp [hg]
+    | some e =>
+      simp only [hd] at hf ⊢
+      by_cases ht : e.type ≠ k!"request"
+      · simp [ht, Out.Safe] at hf
+      · simp only [if_neg ht] at hf ⊢
+        exact afterHint_dead _ _ _ _ hf
+
+/-! ## memory references -/
+
+/-- an accepted memory reference (+ offset) is an address below 2^63: `addr + bytes.len()` and the word rounding of
+`write_bytes` (data.rs:457) cannot overflow `usize` for any buffer a message can carry -/
+theorem C08_dap_memref_in_range (r : List Char) (off : Int) (a : Nat) (h : memRefWithOffset r off = .ok a) : a < 2 ^ 63 := by
+  unfold memRefWithOffset at h
+  split at h
+  · cases h
+  · dsimp only at h
+    split at h
+    · cases h
+    · split at h
+      · cases h
+      · split at h
+        · cases h
+        · cases h; omega
+
+theorem C08_dap_write_span_no_overflow (addr len : Nat) (ha : addr < 2 ^ 63) (hl : len < 2 ^ 62) :
+    addr + len < 2 ^ 64 ∧ (addr + len) / 8 * 8 + 8 < 2 ^ 64 := by omega
+
+example : memRefWithOffset k!" 0x10 " (-1) = .ok 15 := by rfl
+#guard (match memRefWithOffset k!"0x7fffffffffffffff" 1 with | .error e => e == "memoryReference + offset overflow" | _ => false)
+#guard (match memRefWithOffset k!"0x8000000000000000" 0 with | .error e => e == "memoryReference out of range" | _ => false)
+example : memRefWithOffset k!"+16" (-17) = .error "memoryReference + offset is negative" := by rfl
+
+/-! ## sanity tests on strings (evaluated, *not* proofs) and the tie to the dispatch table of the source -/
+
+#guard Cmd.all.map Cmd.name == Gen.DapDispatch.commands
+#guard Gen.DapDispatch.endsSession == [Cmd.terminate.name, Cmd.disconnect.name]
+#guard Cmd.ofName "completions" == .completions && Cmd.ofName "día" == .other
+#guard slug "completions: arguments must be object (possibly empty)" == "completions_arguments_must_be_object_possibly_empty"
+#guard slug "Unsupported DAP command: " == "unsupported_dap_command"
+#guard b64DecodedLen "QUJD".toList == some 3 && b64DecodedLen "QQ==".toList == some 1 && b64DecodedLen "QR==".toList == none
+#guard b64DecodedLen "".toList == some 0 && b64DecodedLen "QUJ".toList == none && b64DecodedLen "Q=Q=".toList == none
+#guard trim "\u2003 0x20\t".toList == "0x20".toList
+#guard (parseMemRef "0x+10".toList matches .ok 16) && (parseMemRef "１６".toList matches .error _)
+#guard byteOff "dí".toList 2 == 3 && isCharBoundary "dí".toList 2 == false && utf8Bytes "dí".toList == [100, 195, 173]
+
 end BsVerif.DapArgs
